@@ -75,7 +75,8 @@ class C04(Base):
 
     def targeted(self, rng, n):
         firsts = [".x", "[x", "*x", "[a] b", "*[a] b", ". ", "x", "{ $v }", "{\"[\"}", "é", "x  ", "\"q"]
-        conts = ["y", "  y", "{ $v } z", "    deep", "", "y  ", "{ $a }{ $b }", "-dash", "#hash", "é😀", "\ttab"]
+        conts = ["y", "  y", "{ $v } z", "    deep", "", "y  ", "{ $a }{ $b }", "-dash", "#hash", "é😀", "\ttab", "\r", "\r ", " \r",
+                 "\r\r", "x\r"]
         for _ in range(n):
             eol = "\n" if rng.random() < 0.7 else "\r\n"
             k = rng.random()
@@ -89,7 +90,9 @@ class C04(Base):
                 else:
                     src = head + eol + " " * ind + lines[0] + eol
                 for l in lines[1:]:
-                    src += ((" " * (ind + rng.choice([0, 0, 2, 4])) + l) if l else rng.choice(["", "   "])) + eol
+                    src += ((" " * max(1, ind + rng.choice([0, 0, 2, 4, -1, -2])) + l) if l else rng.choice(["", "   "])) + eol
+                if rng.random() < 0.3:
+                    src = src[: -len(eol)]      # no final line break
             elif k < 0.7:
                 v1 = rng.choice(["one", "{ $y ->\n            [a] A\n           *[b] B\n        }", "l1\n            l2", ".dot", "[br"])
                 src = ("a = { $x ->\n        [one] %s\n       *[other] { 1 }\n    } tail\n" % v1).replace("\n", eol)
